@@ -601,6 +601,16 @@ def _invalid_table(vd):
     T["block_split: region W>E"] = lambda: vd.block_split((e, n), spacing=1.0, region=(4, 0, 0, 2))
     T["grid_coordinates: region S>N"] = lambda: vd.grid_coordinates((0, 1, 2, 0), shape=(2, 2))
     T["scatter_points: region W>E"] = lambda: vd.scatter_points((4, 0, 0, 2), size=3, random_state=0)
+    # regions inverted by a few metres at projected-coordinate magnitudes (relative 1e-6: below numpy's default closeness tolerances)
+    utm_bad_w = (500003.0, 500000.0, 7200000.0, 7200500.0)
+    utm_bad_s = (500000.0, 500400.0, 7200002.5, 7200000.0)
+    for nm_, rg_ in (("W>E", utm_bad_w), ("S>N", utm_bad_s)):
+        T["grid_coordinates: UTM region slightly inverted %s" % nm_] = lambda rg_=rg_: vd.grid_coordinates(rg_, shape=(3, 3))
+        T["scatter_points: UTM region slightly inverted %s" % nm_] = lambda rg_=rg_: vd.scatter_points(rg_, size=3, random_state=0)
+        T["inside: UTM region slightly inverted %s" % nm_] = lambda rg_=rg_: vd.inside((e + 500000.0, n + 7200000.0), rg_)
+        T["block_split: UTM region slightly inverted %s" % nm_] = lambda rg_=rg_: vd.block_split((e + 500000.0, n + 7200000.0), spacing=1.0, region=rg_)
+        T["grid: UTM region slightly inverted %s" % nm_] = lambda rg_=rg_: fitted().grid(region=rg_, shape=(2, 2))
+        T["CheckerBoard: UTM region slightly inverted %s" % nm_] = lambda rg_=rg_: vd.synthetic.CheckerBoard(region=rg_).grid(shape=(2, 2))
     T["inside: region of 5 values"] = lambda: vd.inside((e, n), (0, 1, 0, 1, 2))
     # (pad_region is not in this table: it only adds the padding to the four numbers it is given - nothing is aligned or guessed from
     # an inverted region, and every consumer of the result rejects it)
